@@ -655,6 +655,9 @@ func (f *frame) contractCall(res ssa.Value, plan callPlan, c *ssa.CallCommon, st
 		}
 		envPre.vars[l[0]] = v
 	}
+	for _, g := range fc.GhostMaps {
+		envPre.vars[g] = cval{term: B.declConst(B.fresh("ghost."+g), "(Array Int Int)"), sort: "(Array Int Int)"}
+	}
 	for _, r := range fc.Requires {
 		g, err := envPre.compileBool(r.Expr)
 		if err != nil {
@@ -846,8 +849,7 @@ func (f *frame) builtin(res ssa.Value, name string, c *ssa.CallCommon, st *State
 		case *types.Map:
 			ks := B.sortOf(u.Key())
 			ps := arrOf("(Array " + ks + " Bool)")
-			fn := B.declFun("card:"+ks, []string{"(Array " + ks + " Bool)"}, "Int")
-			B.rawDecl("cardax:"+ks, fmt.Sprintf("(assert (forall ((s (Array %s Bool))) (! (and (>= (%s s) 0) (=> (= (%s s) 0) (= s ((as const (Array %s Bool)) false)))) :pattern ((%s s)))))\n(assert (= (%s ((as const (Array %s Bool)) false)) 0))", ks, fn, fn, ks, fn, fn, ks))
+			fn := B.cardFn(ks)
 			set(ite(fmt.Sprintf("(= %s 0)", v), "0", fmt.Sprintf("(%s (select %s %s))", fn, t.get(st, mapPArr(u), ps), v)))
 		case *types.Array:
 			set(fmt.Sprint(u.Len()))
@@ -950,18 +952,27 @@ func (f *frame) appendOp(res ssa.Value, c *ssa.CallCommon, st *State, cur string
 		fmt.Sprintf("(mk_slice (s_base %s) (s_off %s) %s (s_cap %s))", s, s, newLen, s),
 		fmt.Sprintf("(mk_slice %s 0 %s %s)", freshBase, newLen, newCap)))
 	cur = and(cur, fmt.Sprintf("(>= %s %s)", newCap, newLen))
-	// new element heap: unknown array constrained pointwise
-	na := B.declConst(B.fresh(name), es)
+	// new element heap: only the backing array of the result changes; its content is constrained pointwise
+	rb, ro := fmt.Sprintf("(s_base %s)", r), fmt.Sprintf("(s_off %s)", r)
+	inner := B.declConst(B.fresh(name+".app"), arrOf(B.sortOf(el)))
+	na := B.define(name, es, fmt.Sprintf("(store %s %s %s)", old, rb, inner))
 	t.arrSort[name] = es
 	st.heap[name] = na
 	t.noteVersion(na, st.alloc)
-	rb, ro := fmt.Sprintf("(s_base %s)", r), fmt.Sprintf("(s_off %s)", r)
-	// other bases unchanged
-	cur = and(cur, fmt.Sprintf("(forall ((?b Int)) (! (=> (not (= ?b %s)) (= (select %s ?b) (select %s ?b))) :pattern ((select %s ?b))))", rb, na, old, na))
 	// prefix preserved (both cases), appended elements, in-place: everything outside the appended window unchanged
-	cur = and(cur, fmt.Sprintf("(forall ((?i Int)) (! (=> (and (<= 0 ?i) (< ?i (s_len %s))) (= (select (select %s %s) (+ %s ?i)) (select (select %s (s_base %s)) (+ (s_off %s) ?i)))) :pattern ((select (select %s %s) (+ %s ?i)))))", s, na, rb, ro, old, s, s, na, rb, ro))
-	cur = and(cur, fmt.Sprintf("(forall ((?i Int)) (! (=> (and (<= 0 ?i) (< ?i %s)) (= (select (select %s %s) (+ %s (s_len %s) ?i)) (select (select %s (s_base %s)) (+ (s_off %s) ?i)))) :pattern ((select (select %s (s_base %s)) (+ (s_off %s) ?i)))))", n, na, rb, ro, s, old, x, x, old, x, x))
-	cur = and(cur, fmt.Sprintf("(=> %s (forall ((?j Int)) (! (=> (or (< ?j (+ (s_off %s) (s_len %s))) (>= ?j (+ (s_off %s) %s))) (= (select (select %s %s) ?j) (select (select %s %s) ?j))) :pattern ((select (select %s %s) ?j)))))", inPlace, s, s, s, newLen, na, rb, old, rb, na, rb))
+	cur = and(cur, fmt.Sprintf("(forall ((?i Int)) (! (=> (and (<= 0 ?i) (< ?i (s_len %s))) (= (select %s (+ %s ?i)) (select (select %s (s_base %s)) (+ (s_off %s) ?i)))) :pattern ((select %s (+ %s ?i))) :pattern ((select (select %s (s_base %s)) (+ (s_off %s) ?i)))))", s, inner, ro, old, s, s, inner, ro, old, s, s))
+	cur = and(cur, fmt.Sprintf("(forall ((?i Int)) (! (=> (and (<= 0 ?i) (< ?i %s)) (= (select %s (+ %s (s_len %s) ?i)) (select (select %s (s_base %s)) (+ (s_off %s) ?i)))) :pattern ((select (select %s (s_base %s)) (+ (s_off %s) ?i)))))", n, inner, ro, s, old, x, x, old, x, x))
+	// append(s, a, b, ...): the variadic slice has a literal length, state its elements one by one (no trigger needed)
+	if sv, ok := c.Args[1].(*ssa.Slice); ok && sv.Low == nil && sv.High == nil {
+		if al, ok := sv.X.(*ssa.Alloc); ok {
+			if arr, ok := al.Type().Underlying().(*types.Pointer).Elem().Underlying().(*types.Array); ok && arr.Len() <= 8 {
+				for i := int64(0); i < arr.Len(); i++ {
+					cur = and(cur, fmt.Sprintf("(= (select %s (+ %s (s_len %s) %d)) (select (select %s (s_base %s)) (+ (s_off %s) %d)))", inner, ro, s, i, old, x, x, i))
+				}
+			}
+		}
+	}
+	cur = and(cur, fmt.Sprintf("(=> %s (forall ((?j Int)) (! (=> (or (< ?j (+ (s_off %s) (s_len %s))) (>= ?j (+ (s_off %s) %s))) (= (select %s ?j) (select (select %s %s) ?j))) :pattern ((select %s ?j)))))", inPlace, s, s, s, newLen, inner, old, rb, inner))
 	f.vals[res] = &Val{term: r}
 	return cur, nil
 }
